@@ -29,4 +29,13 @@ def default_sites(caller, callee_path):
         recv = res.operand(t["args"][0])
         if any(s[0] == "call" and s[1] == callee_path for s in subterms(recv)):
             out.append((caller.where(bb), f["path"], render(recv)[:120]))
+    # `match callee(..) { Some(v) => .., None => default }`: a branch on the discriminant of the result
+    for i, blk in enumerate(caller.blocks):
+        tt = blk["term"]
+        if blk["cleanup"] or i not in caller.reach or tt["k"] != "switch" or tt["o"]["k"] not in ("copy", "move"):
+            continue
+        term = res.operand(tt["o"])
+        if term[0] == "discr" and any(s[0] == "call" and s[1] == callee_path for s in subterms(term)) \
+                and not any(s[0] == "call" and s[1].endswith("Try::branch") for s in subterms(term)):
+            out.append((caller.where(i), "match on the result", render(term)[:120]))
     return out
